@@ -922,6 +922,15 @@ def g_algo(tier, seed):
             rk[k] = s[k] + 1
             yield C("algo", "ttb.hosvd", "rank_above_size", None, [data, 0.1], dict(kwh, ranks=A_py(rk)), ranks=rk,
                     mode=k, **info)
+        # option lattice: every rank vector over {1, size, size+1} per mode x every processing order x both
+        # truncation schemes (ranks are per MODE, whatever the order in which the modes are processed)
+        for rk in _rank_vectors(s):
+            var = "control" if all(a <= b for a, b in zip(rk, s)) else "rank_above_size"
+            for p in itertools.permutations(range(n)):
+                for sq in (True, False):
+                    yield C("algo", "ttb.hosvd", var, None, [data, 0.1],
+                            dict(kwh, ranks=A_py(rk), dimorder=A_py(list(p)), sequential=sq), ranks=rk,
+                            dimorder=list(p), sequential=sq, **info)
         # ---- tucker_als
         kwt = {"printitn": 0, "maxiters": 1}
         guess = [A_mat(s[i], ranks[i], i) for i in range(n)]
@@ -954,6 +963,12 @@ def g_algo(tier, seed):
                     bad[k] = A_mat(rows, cols, k)
                     yield C("algo", "ttb.tucker_als", var, None, [data, A_py(ranks)],
                             dict(kwt, init=A_list(bad), dimorder=A_py(p)), ranks=ranks, pos=k, dimorder=p, **info)
+        # the same rank-vector x processing-order lattice (default random guess)
+        for rk in _rank_vectors(s):
+            var = "control" if all(a <= b for a, b in zip(rk, s)) else "rank_above_size"
+            for p in itertools.permutations(range(n)):
+                yield C("algo", "ttb.tucker_als", var, None, [data, A_py(rk)], dict(kwt, dimorder=A_py(list(p))),
+                        ranks=rk, dimorder=list(p), **info)
         yield C("algo", "ttb.tucker_als", "init_length", None, [data, A_py(ranks)], dict(kwt, init=A_list(guess[:-1])),
                 ranks=ranks, **info)
         yield C("algo", "ttb.tucker_als", "init_length", None, [data, A_py(ranks)],
@@ -1034,6 +1049,11 @@ def g_algo(tier, seed):
                         kind="ktensor", pos=k, **info)
 
 
+def _rank_vectors(s):
+    """every per-mode rank vector over {1, size, size + 1} (smallest / largest admissible / first inadmissible)"""
+    return [list(q) for q in itertools.product(*[sorted({1, x, x + 1}) for x in s])]
+
+
 def _bad_guesses(s, R, seed, positive=False):
     """Kruskal guesses that do not fit data of shape s and rank R"""
     n = len(s)
@@ -1070,17 +1090,27 @@ def g_inplace(tier, seed):
         info = dict(shape=list(s))
         r = hd("ktensor", s, seed)
         op = "ktensor.update"
-        # every ascending mode list (weights = -1 first), data exactly right / one short / far too short
-        sels = [list(q) for q in space.subsets(range(-1, n), 1, 3)]
+        # every ascending (non-decreasing: the documented requirement is "ascending order" and the check is <=, so an
+        # entry may be listed more than once and then consumes one data block per listing) mode list of <= 3 entries
+        # (weights = -1 first), data exactly right / one short / one rank short / one whole block short per listed
+        # mode / far too short
+        sels = [list(q) for L in (1, 2, 3) for q in itertools.combinations_with_replacement(range(-1, n), L)]
         for sel in sels:
-            need = sum(R if k == -1 else s[k] * R for k in sel)
-            yield C("inplace", op, "control", r, [A_ints(sel), A_vec(need)], modes=sel, length=need, **info)
-            for L in sorted({need - 1, need - R, 1} - {0, need}):
+            blocks = [R if k == -1 else s[k] * R for k in sel]
+            need = sum(blocks)
+            repeated = len(set(sel)) != len(sel)
+            c = C("inplace", op, "control", r, [A_ints(sel), A_vec(need)], modes=sel, length=need, **info)
+            if repeated:
+                # whether a mode listed twice (with enough data) is well-formed is not stated: run, not asserted;
+                # too little data is ill-formed under either reading
+                c["inadm"] = "repeated mode with enough data: acceptance not stated"
+            yield c
+            for L in sorted(({need - 1, need - R, 1} | {need - b for b in blocks}) - {0, need}):
                 if L > 0:
                     yield C("inplace", op, "length", r, [A_ints(sel), A_vec(L)], modes=sel, length=L, need=need,
-                            **info)
-            if len(sel) >= 2 and sel[0] != -1:
-                rev = list(reversed(sel))
+                            repeated=repeated, **info)
+            rev = list(reversed(sel))
+            if len(sel) >= 2 and sel[0] != -1 and rev != sel:
                 yield C("inplace", op, "order", r, [A_ints(rev), A_vec(need)], modes=rev, length=need, **info)
         for first in ([], [0], [-1, 0]):
             sel = first + [n]
